@@ -17,6 +17,7 @@ use vh::val::Val;
 
 struct Scope {
     env: Vec<String>,
+    other_mount: Option<std::path::PathBuf>,
 }
 impl Drop for Scope {
     fn drop(&mut self) {
@@ -24,7 +25,32 @@ impl Drop for Scope {
             std::env::remove_var(k);
         }
         let _ = std::env::set_current_dir("/");
+        if let Some(d) = self.other_mount.take() {
+            let _ = std::fs::remove_dir_all(d);
+        }
     }
+}
+
+/// Paths below `xm/` live on ANOTHER mount when one is available (a fresh directory under
+/// /dev/shm, reached through the symlink `xm`), so that renames between `xm/..` and the rest
+/// of the case directory fail with EXDEV and exercise move_file's copy+delete fallback.
+/// Without a second mount `xm` is an ordinary directory (same observable behaviour).
+fn make_xm(root: &Path) -> Option<std::path::PathBuf> {
+    use std::os::unix::fs::MetadataExt;
+    let here = std::fs::metadata(root).ok()?.dev();
+    if let Ok(m) = std::fs::metadata("/dev/shm") {
+        if m.dev() != here {
+            if let Ok(d) = tempfile::Builder::new().prefix("vh-c07-").tempdir_in("/dev/shm") {
+                let d = d.into_path();
+                if std::os::unix::fs::symlink(&d, root.join("xm")).is_ok() {
+                    return Some(d);
+                }
+                let _ = std::fs::remove_dir_all(&d);
+            }
+        }
+    }
+    let _ = std::fs::create_dir_all(root.join("xm"));
+    None
 }
 
 fn run(case: &Val) -> Val {
@@ -37,7 +63,10 @@ fn run(case: &Val) -> Val {
     let tmp = tempfile::tempdir().expect("tempdir");
     let root = tmp.path().to_path_buf();
     std::env::set_current_dir(&root).expect("chdir");
-    let mut scope = Scope { env: vec![] };
+    let mut scope = Scope { env: vec![], other_mount: None };
+    if pattern.starts_with("xm/") || file.starts_with("xm/") {
+        scope.other_mount = make_xm(&root);
+    }
     for kv in c[5].l() {
         let kv = kv.l();
         std::env::set_var(kv[0].str(), kv[1].str());
